@@ -120,7 +120,46 @@ impl Printer {
     fn stream(&mut self, ts: TokenStream, spec: &FnSpec) -> Result<(), Fail> {
         let toks: Vec<TokenTree> = ts.into_iter().collect();
         let mut i = 0;
+        // `for PAT in EXPR {` of loop N is printed as `for PAT in __itN: EXPR` so that the injected
+        // invariant can name the ghost iterator (Verus syntax)
+        let mut name_iter_at: Option<(usize, usize)> = None; // (index of `in`, loop ordinal)
         while i < toks.len() {
+            if let TokenTree::Ident(id) = &toks[i] {
+                if id == "for" {
+                    let mut in_at = None;
+                    for j in i + 1..toks.len() {
+                        match &toks[j] {
+                            TokenTree::Ident(x) if x == "in" && in_at.is_none() => in_at = Some(j),
+                            TokenTree::Group(g) if g.delimiter() == Delimiter::Brace => {
+                                let inner: Vec<TokenTree> = g.stream().into_iter().take(3).collect();
+                                if inner.len() == 3 {
+                                    if let (TokenTree::Ident(a), TokenTree::Group(ng)) = (&inner[0], &inner[2]) {
+                                        if a == "__vp_loop_spec" {
+                                            if let (Some(p), Ok(n)) = (in_at, ng.stream().to_string().trim().parse::<usize>()) {
+                                                name_iter_at = Some((p, n));
+                                            }
+                                        }
+                                    }
+                                }
+                                break;
+                            }
+                            TokenTree::Punct(p) if p.as_char() == ';' => break,
+                            _ => {}
+                        }
+                    }
+                }
+            }
+            if let Some((p, n)) = name_iter_at {
+                if p == i {
+                    let src = Self::src_of(&toks[i]);
+                    self.emit("in", src);
+                    self.emit(&format!("__it{}", n), None);
+                    self.emit(":", None);
+                    name_iter_at = None;
+                    i += 1;
+                    continue;
+                }
+            }
             // placeholders: IDENT ! ( .. )
             if let TokenTree::Ident(id) = &toks[i] {
                 let name = id.to_string();
